@@ -446,8 +446,8 @@ def rule_fmt_complete(prog, rep, units, rid='F1'):
 
                     def releases(m):
                         return isinstance(m.ast, dict) and m.kind != 'macro' and any(
-                            y.get('kind') == 'CallExpr' and prog.callee_name(y) in ('free', 'realloc') and len(children(y)) > 1
-                            and canon(children(y)[1]) == buf for y in walk(m.ast))
+                            y.get('kind') == 'CallExpr' and prog.callee_name(y) == 'free' and len(children(y)) > 1
+                            and canon(children(y)[1]) == buf for y in walk(m.ast))      # realloc() keeps the old block when it fails
                     bad = None
                     seen = set()
                     work = [(s, False, lab, n) for (s, lab) in n.succs]
